@@ -1,5 +1,6 @@
 import Pfb.DriverUtil
 import Pfb.C10.Props
+import Pfb.C10.Cols
 open Lean Pfb Pfb.Drv Pfb.C10
 
 def posOf (j : Json) : Except String Pos := do
@@ -44,6 +45,11 @@ def handle (j : Json) : Except String Json := do
     | .ok r => pure (Json.mkObj [("ok", strJ r.joined),
                  ("start", Json.arr #[natJ r.start.line, natJ r.start.col])])
     | .error e => pure (Json.mkObj [("err", errJ e)])
+  | "charcol" =>
+    let l ← jstr j "line"
+    let bs ← jNatList (← jarr j "offsets")
+    pure (Json.mkObj [("ok", Json.arr (bs.map (fun b => natJ (charCol (toStr l) b))).toArray),
+                      ("len", natJ (utf8Len (toStr l)))])
   | _ => throw s!"unknown op {op}"
 
 def main : IO Unit := serve handle
